@@ -743,7 +743,8 @@ func (x *Exec) applySpec(e *SpecEnv, sf *SpecFunc, args []*Val) *Val {
 	}
 	// predicates and non-recursive spec functions are macros: expanded in place (no quantified axiom)
 	if sf.Body != nil && (!sf.Opaque || x.revealed[sf.Name]) && (x.P.Specs.isPred(sf) || !x.P.Specs.isRecursive(sf)) {
-		env := &SpecEnv{x: x, st: e.st, old: e.old, vars: map[string]*Val{}, pkg: sf.Pkg}
+		// (sink: where let-definitions evaluated under old() are recorded; nbound: inside a quantifier no constant is introduced)
+		env := &SpecEnv{x: x, st: e.st, old: e.old, vars: map[string]*Val{}, pkg: sf.Pkg, sink: e.sink, nbound: e.nbound}
 		for i, p := range sf.Params {
 			env.vars[p.Name] = args[i]
 		}
